@@ -1,0 +1,16 @@
+//go:build verif
+
+package versiontest
+
+import "deps.dev/util/resolve/version"
+
+// VerifKeys returns copies of the key tables ParseString works from: every
+// known key, in table order, and the keys that take no value.
+func VerifKeys() (all []version.AttrKey, flags map[version.AttrKey]bool) {
+	all = append(all, allKeys...)
+	flags = make(map[version.AttrKey]bool, len(flagKeys))
+	for k, v := range flagKeys {
+		flags[k] = v
+	}
+	return all, flags
+}
